@@ -30,3 +30,13 @@ def is_mls_call(c, *names):
 
 def entry_label(chain, fallback):
     return chain[0] if chain else fallback
+
+
+def pure_lookup_calls(prog, f, lookup_name):
+    """calls in f that perform the named storage lookup — directly, or through a helper that does nothing but look up
+    (reaches the lookup, reaches no storage write and no MLS group call)"""
+    import analysis as A
+    look = A.ReachCache(prog, lambda c: is_storage_trait_call(c, lookup_name))
+    effect = A.ReachCache(prog, lambda c: ((c.trait or "").startswith("mdk_storage_traits::") and c.name.startswith(("save_", "replace_", "invalidate_", "mark_", "delete_", "create_", "rollback_", "release_")))
+                          or (last_seg(c.self_adt) == "MlsGroup"))
+    return [c for c in f.live_calls() if look.call(c) and not effect.call(c)]
